@@ -341,6 +341,19 @@ def rule_own(env, shared):
                         clamped = True
                 facts = [tuple(m.canon(x) if isinstance(x, tuple) else x for x in f) for f in block_facts(ev, dctx, bi)]
                 guarded = CProver(facts, ev, dctx).le(ldc, Lc)
+                if not guarded and not clamped and rsb is not None:
+                    # the guard may sit in the remainder split itself (`if index > LEN { return None }`): every use of its
+                    # parameter in an operation (not in a comparison) happens under `param <= LEN`
+                    p2g = ("param", 2)
+                    uses_g = []
+                    for e_ in env.flat_events(rsb, adt, w, own_closures=True):
+                        if e_.kind == "call" and e_.info.get("model") in ("lt", "le", "gt", "ge", "eq", "ne", "cmp"):
+                            continue
+                        if any(z == p2g for x in e_.args if isinstance(x, tuple) and x and isinstance(x[0], str)
+                               for z in subterms(x)):
+                            uses_g.append(e_)
+                    if uses_g and all(cprover(m, env, e_).le(p2g, Lc) for e_ in uses_g):
+                        guarded = True
                 if len(lds) != 1 or arith or not (a1c == ldc or clamped):
                     out.append(Ob("OWN.c", k, "viol", db.file_line(t["loc"]),
                                   "Drop of %s splits the storage at %s instead of at the position counter itself: elements are "
